@@ -298,6 +298,14 @@ func Render(h map[string]string) (map[string]string, []string) {
 		rg = "type int8 { range \"1..500\"; }"
 	case "min-only":
 		rg = "type int8 { range \"min\"; }"
+	case "above-the-type":
+		rg = "type uint8 { range \"300..400\"; }"
+	case "below-the-type":
+		rg = "type int8 { range \"-400..-300\"; }"
+	case "beyond-the-last-part":
+		rg = "type tl { length \"2 | 12\"; } } typedef tl { type string { length \"1..3 | 7..9\"; }"
+	case "in-a-gap":
+		rg = "type tl { length \"5\"; } } typedef tl { type string { length \"1..3 | 7..9\"; }"
 	}
 	fmt.Fprintf(&m, "  leaf rg { %s }\n", rg)
 	ir := "type identityref { base i1; }"
